@@ -276,7 +276,8 @@ def run_tcp_one(it):
                               tcc.TcpClientConnection.disable, tcc.TcpClientConnection._TcpClientConnection__connect_thread,
                               tcc.TcpClientConnection._TcpClientConnection__connect, tcc.TcpClientConnection._TcpClientConnection__idle,
                               tsc.TcpServerConnection._TcpServerConnection__server_thread],
-                  line_cost=1e-3, pct_depth=3, pct_horizon=400)
+                  line_cost=1e-3, pct_depth=3, pct_horizon=400,
+                  line_lag=((tc.TcpConnection._TcpConnection__receiver_thread,), 0.35, 0.02) if it.get("lag") else None)
     simsock.set_net(None)
     rec["outcome"] = s.outcome
     if s.outcome != "done":
@@ -339,6 +340,20 @@ def run(ctx: Ctx):
         ctx.add_tlc(rlw, f"{spec}: regression witness (original handshake) -- TLC must refute it")
         if rlw.error_kind not in ("property", "invariant"):
             raise Machinery(f"{spec} regression witness no longer fails")
+    for spec, consts, wit, props, what in (
+            ("TcpReceiverStop", "ResetAtStart = TRUE\n RunningLast = TRUE", ["ResetAtStart = FALSE\n RunningLast = FALSE", "ResetAtStart = TRUE\n RunningLast = FALSE"],
+             "INVARIANT NewConnectionIsKept\nPROPERTY DisconnectReturns\n",
+             "stop-flag handshake of disconnect() and the receiver thread across two connections: the new connection is kept, disconnect() returns"),
+            ("TcpServerRestart", "DisconnectFirst = TRUE", ["DisconnectFirst = FALSE"], "INVARIANT ListensAfterEnable\nINVARIANT QuietWhileDisabled\nPROPERTY DisableReturns\n",
+             "restart of the listening thread by the close handling vs disable() / enable(): a live thread listens on its own socket afterwards")):
+        rl = tlc.run(spec, cfg_text=f"SPECIFICATION Spec\nCONSTANTS {consts}\n{props}", workdir=wd, what=spec + "_fixed", timeout=900, deadlock=False)
+        tlc.require_ok(rl, spec)
+        ctx.add_tlc(rl, f"{spec}: {what}")
+        for k, wc in enumerate(wit):
+            rlw = tlc.run(spec, cfg_text=f"SPECIFICATION Spec\nCONSTANTS {wc}\n{props}", workdir=wd, what=f"{spec}_orig{k}", timeout=900, deadlock=False, expect_error=True)
+            ctx.add_tlc(rlw, f"{spec}: regression witness ({wc.replace(chr(10), ',')}) -- TLC must refute it")
+            if rlw.error_kind not in ("property", "invariant"):
+                raise Machinery(f"{spec} regression witness {wc!r} no longer fails")
     # ---- Leg R/V
     items = []
     tid = 0
@@ -429,6 +444,14 @@ def run(ctx: Ctx):
                 tid += 1
                 titems.append({"id": tid, "side": side, "name": name, "script": script, "policy": pol, "wait": rng.choice([0.3, 1.0, 11.0]),
                                "gap": rng.choice([0, 0, 0.001, 0.003, 0.01, 0.25]), "seed": rng.randrange(1 << 30)})
+    # the same "at once" scenarios with the connection's receiver thread descheduled between the statements of its close handling
+    for side in ("server", "client"):
+        for name, script in TCP_SCRIPTS.items():
+            if "at-once" in name and "peer_close_fast" in script:
+                for k in range(6 if ctx.quick else 40):
+                    tid += 1
+                    titems.append({"id": tid, "side": side, "name": name, "script": script, "policy": ["random", "fifo", "pct"][k % 3], "wait": 0.3,
+                                   "gap": rng.choice([0, 0.001, 0.003, 0.01, 0.05]), "seed": rng.randrange(1 << 30), "lag": True})
     trecs = [r_ for batch in pmap(run_tcp_batch, chunks(titems, 28)) for r_ in batch]
     ctx.traces += len(trecs)
     ctx.evaluations += len(trecs)
@@ -436,7 +459,7 @@ def run(ctx: Ctx):
         if not r_["ok"]:
             ctx.violation({"check": "tcp-lifecycle", "clause": r_["clause"], "side": r_["side"], "scenario": r_["name"], "policy": r_["policy"],
                            "steps_done": r_["steps"], "blocked": r_.get("blocked"), "thread_errors": r_["thread_errors"],
-                           "sched_seed": r_["seed"], "connected_at_disable": "connect" in r_["steps"] and "peer_close" not in r_["steps"][-2:],
+                           "sched_seed": r_["seed"], "receiver_thread_lag": bool(r_.get("lag")), "connected_at_disable": "connect" in r_["steps"] and "peer_close" not in r_["steps"][-2:],
                            "what": f"{r_['side']} {r_['name']} ({r_['policy']}): {r_['clause']} after {r_['steps']}; thread errors {r_['thread_errors'][:1]}"})
     ctx.extra["tcp_lifecycle_runs"] = len(trecs)
     ctx.extra["observation_listening_again_after_disable"] = sum(1 for r_ in trecs if r_.get("listening_after_disable"))
